@@ -28,7 +28,10 @@ RULE = (
     "generated sessions: SneakyPool.map (P=1..4 workers, 1..4 successive batches of 0..12 inputs on one pool, "
     "failing inputs at random/every position, three call styles: plain function / fitness mapped / fitness as "
     "argument), Process.run_jobs (1..4 workers, 0..12 jobs, failing jobs, stale empty() answers), "
-    "Initializer.samples_from_model(n_cores=2..4) with rejected and failing points; schedules: uniform random, "
+    "Initializer.samples_from_model(n_cores=2..4) with rejected and failing points; map along schedules with a known "
+    "number of fair rounds (at / above / below the bound 4nP+1, unfair prefixes); whole pool sessions (start, 0..2 "
+    "batches, the real __del__ along caller-first / workers-first / mixed / starving schedules, then fair rounds); "
+    "the stop tokens and live workers of every run_jobs case at return and after two fair rounds; schedules: uniform random, "
     "bursts, one slow worker, workers in reverse order, caller-first, plain round-robin. non-trivial = at least 2 "
     "workers and 2 inputs in one batch and (workers evaluated the inputs in an order different from the input "
     "order, or an input failed, or more than one batch); distinct = hash of (kind, P, outcomes, schedule)"
@@ -1082,7 +1085,8 @@ def run(ctx):
         "multiprocessing.Queue is a FIFO whose empty() may report a stale True; a process is a sequential actor "
         "(real code run in a thread, one queue operation per scheduler turn); pickling of jobs/results is not modelled",
         "the function mapped is deterministic and has no cross-talk between evaluations (scripted outcomes)",
-        "termination is observed (fair round-robin continuation of every schedule), not proved",
+        "termination of map under fair schedules is a theorem (bound in fair rounds); for run_jobs it is observed (fair "
+        "round-robin continuation of every schedule), not proved; join timeouts / OS teardown of processes are not modelled",
     ]
     for f in sorted((VERIF / "corpus" / "C14").glob("*.json")):
         dispatch(ctx, json.loads(f.read_text()), f.name)
